@@ -509,16 +509,11 @@ func substringIndFunc(arg1, arg2 query, after bool) func(query, iterator) interf
 		case string:
 			word = v
 		case query:
-			node := v.Select(t)
-			if node == nil {
-				return ""
+			// An empty node-set converts to the empty string.
+			if node := v.Select(t); node != nil {
+				word = node.Value()
 			}
-			word = node.Value()
 		}
-		if word == "" {
-			return ""
-		}
-
 		i := strings.Index(str, word)
 		if i < 0 {
 			return ""
